@@ -8,9 +8,21 @@ export GOFLAGS=-mod=mod GOPROXY=off GOSUMDB=off GOTOOLCHAIN=local
 export VERIF_SEED="${VERIF_SEED:-1}"
 PLUSHPKGS='github.com/gobuffalo/plush/v5/...'
 
+# The library under test: /repo's working tree, unless a run was given a copy of its own
+# (vp run --with-repo exports VP_RUN_REPO; VERIF_REPO overrides both).
+REPO="${VERIF_REPO:-${VP_RUN_REPO:-/repo}}"
+export VERIF_REPO="$REPO"
+MODFLAGS=()
+if [ "$REPO" != "/repo" ]; then
+  mkdir -p "$ROOT/work"
+  sed "s|=> /repo\$|=> $REPO|" "$ROOT/harness/go.mod" > "$ROOT/work/go.alt.mod"
+  cp "$ROOT/harness/go.sum" "$ROOT/work/go.alt.sum"
+  MODFLAGS=(-modfile="$ROOT/work/go.alt.mod")
+fi
+
 build() { # $1 = output name, rest = extra flags
   local out="$1"; shift
-  ( cd "$ROOT/harness" && go build -tags verif "$@" -gcflags="$PLUSHPKGS=-d=checkptr" -o "$ROOT/bin/$out" ./cmd/verifrun ) || { echo "BUILD FAILED" >&2; exit 2; }
+  ( cd "$ROOT/harness" && go build "${MODFLAGS[@]}" -tags verif "$@" -gcflags="$PLUSHPKGS=-d=checkptr" -o "$ROOT/bin/$out" ./cmd/verifrun ) || { echo "BUILD FAILED" >&2; exit 2; }
 }
 
 mkdir -p "$ROOT/bin" "$ROOT/work" "$ROOT/evidence" "$ROOT/replays"
@@ -34,7 +46,7 @@ selftest() {
 case "${1:-}" in
   --build)
     build verifrun; build verifrun-race -race
-    ( cd "$ROOT/harness" && go test -tags verif -count=1 ./internal/... ) || { echo "REFERENCE MODEL TESTS FAILED" >&2; exit 2; }
+    ( cd "$ROOT/harness" && go test "${MODFLAGS[@]}" -tags verif -count=1 ./internal/... ) || { echo "REFERENCE MODEL TESTS FAILED" >&2; exit 2; }
     selftest || exit 2
     exit 0;;
   --selftest)
